@@ -9,9 +9,13 @@ ops
         cbS / cbX: what the start- / stop-completion callback does when invoked: issue Stop (directly, or on
         another goroutine that it waits for) / Start — logged as RX / RS, followed by what that call did
         scripts: what module i does synchronously inside Start / Stop, a string over
-        T (next(true)), F (next(false)), ! (panic); empty = completes later (see `fire`)
+        T (next(true)), F (next(false)), ! (panic); empty = completes later (see `fire`);
+        A / a: AddModule(a new module with scripts T,T / with delayed completion) -> token A<id>;
+        X / S: the module itself issues Stop / Start (tokens RX / RS, then what that call did);
+        G: it hands a Stop to another goroutine and waits briefly for it (token RG)
   begin ph=<S|X>                 app=1: App.Start / Stop;  app=2: StartNode / StopNode;  app=0: ModList.Start / Stop
-  fire ph=<S|X> i=<i> b=<T|F>    module i invokes the `next` it was handed in that phase (later, other goroutine)
+  fire ph=<S|X> i=<i> b=<T|F> [pre=<A|a>]   module i invokes the `next` it was handed in that phase (later, other
+                                 goroutine), after registering a further module when pre= is given
 observation: the log segment produced by the op, tokens
   S<i> X<i>  Start/Stop of module i entered      c<i><b> d<i><b>  module i calls next(b) (start / stop phase)
   p<i> q<i>  module i panics (recovered by ModList)   fs<b> fx<b>  finish callback of the start / stop phase
@@ -52,6 +56,12 @@ structure Case where
   cbX : String := "none"     -- what the stop-finish callback does: none | start | stop
   fxT : Nat := 0             -- app: number of success reports of the stop phase
   over : Bool := false       -- app: the stop phase reported success twice; the case is over
+
+/-- AddModule(new scripted module): it gets the next index; `sync`: its scripts are T / T -/
+def Case.addMod (c : Case) (sync : Bool) : Case × String :=
+  let scr : List Char := if sync then ['T'] else []
+  ({ c with n := c.n + 1, app := c.app.addModule, startS := c.startS ++ [scr], stopS := c.stopS ++ [scr] },
+   "A" ++ toString c.n)
 
 /-- (phase, module, rest of its synchronous script) -/
 abbrev Frame := Bool × Nat × List Char
@@ -112,6 +122,18 @@ def drain : Nat → Case → List Frame → List String → Case × List String
   | fuel + 1, c, (_, _, []) :: fs, log => drain fuel c fs log
   | fuel + 1, c, (ph, w, ch :: rest) :: fs, log =>
     if ch == '!' then drain fuel c fs (log ++ [(if ph then "p" else "q") ++ toString w])
+    else if ch == 'A' || ch == 'a' then
+      let (c', tok) := c.addMod (ch == 'A')
+      drain fuel c' ((ph, w, rest) :: fs) (log ++ [tok])
+    else if ch == 'X' || ch == 'G' || ch == 'S' then
+      -- the module issues Stop / Start itself, with the state the model has right now
+      let tgt := ch == 'S'
+      let log := log ++ [if ch == 'X' then "RX" else if ch == 'G' then "RG" else "RS"]
+      match beginPhase c tgt with
+      | none => drain fuel c ((ph, w, rest) :: fs) log
+      | some (c1, evs) =>
+        let (c', log', frames) := absorb 1000 c1 evs log []
+        if c'.over then (c', log') else drain fuel c' (frames ++ (ph, w, rest) :: fs) log'
     else
       let r := c.app.step (.call ph w (ch == 'T'))
       let (c', log', frames) := absorb 1000 { c with app := r.1 } r.2 log []
@@ -146,7 +168,11 @@ def step (c : Case) (line : String) : Case × String :=
       if c.over then (c, "over")
       else if !((if ph then c.hasS else c.hasX).contains i) then (c, "noop")
       else
-        let (c', log) := drain 100000 c [(ph, i, [if b == "T" then 'T' else 'F'])] []
+        let (c, pre) := match kv ws "pre" with
+          | some "A" => let r := c.addMod true; (r.1, [r.2])
+          | some "a" => let r := c.addMod false; (r.1, [r.2])
+          | _ => (c, [])
+        let (c', log) := drain 100000 c [(ph, i, [if b == "T" then 'T' else 'F'])] pre
         (c', showLog log)
     | _, _, _ => (c, "bad-op")
   | _ => (c, "bad-op")
@@ -162,6 +188,9 @@ structure Spec where
   begunS : Bool := false
   begunX : Bool := false
   broken : Bool := false    -- some phase log was undisciplined (the scripted modules broke the hypothesis)
+  nNow : Nat := 0           -- modules registered so far (n + the A<id> tokens seen)
+  nS : Nat := 0             -- registered when the start phase last made progress (`doNow` reads the length live)
+  nX : Nat := 0             -- registered when the current stop phase was begun (its index starts at len-1)
 
 def parseTok (t : String) : Option (Bool × Ev) :=
   let cs := t.toList
@@ -206,7 +235,7 @@ def classify (ph : Bool) (order : List Nat) (tr : List Ev) : String :=
 
 /-- the checks on one phase log; `none` = fine -/
 def checkPhase (s : Spec) (ph : Bool) (tr : List Ev) : Option String :=
-  let order := ord s.n ph
+  let order := ord (if ph then s.nS else s.nX) ph
   if !sublistB order (enters tr) then some (if ph then "C11/start-order" else "C11/stop-order")
   else if tr.contains .oob then some "C11/index-out-of-range"
   else
@@ -217,6 +246,8 @@ def checkPhase (s : Spec) (ph : Bool) (tr : List Ev) : Option String :=
     else if disciplinedB tr then
       if canonB order tr then none else some (classify ph order tr)
     else none
+
+def isAddTok (t : String) : Bool := t.startsWith "A" && ((t.drop 1).toString.toNat?).isSome
 
 /-- does this token show that a phase of the given kind (true = start) was begun? -/
 def showsBegin (tgt : Bool) (t : String) : Bool :=
@@ -229,7 +260,7 @@ told `true` must be accepted — and starts a new phase instance when the call w
 def procToks (s : Spec) (prev : String) : List String → Spec × Option String
   | [] => (s, none)
   | t :: rest =>
-    if t == "RX" || t == "RS" then
+    if t == "RX" || t == "RS" || t == "RG" then
       let tgt := t == "RS"
       let accepted := match rest with
         | n :: _ => showsBegin tgt n
@@ -238,7 +269,7 @@ def procToks (s : Spec) (prev : String) : List String → Spec × Option String
         if !s.isApp || s.broken then none
         else if prev == "fsT" && !tgt then some true
         else some false
-      let s' := if accepted then (if tgt then { s with trS := [], begunS := true } else { s with trX := [], begunX := true }) else s
+      let s' := if accepted then (if tgt then { s with trS := [], begunS := true } else { s with trX := [], begunX := true, nX := s.nNow }) else s
       match expected with
       | some true => if accepted then procToks s' t rest else (s', some "C11/stop-dropped-in-start-callback")
       | some false =>
@@ -247,9 +278,9 @@ def procToks (s : Spec) (prev : String) : List String → Spec × Option String
       | none => procToks s' t rest
     else
       let s' := match parseTok t with
-        | some (true, e) => { s with trS := s.trS ++ [e] }
+        | some (true, e) => { s with trS := s.trS ++ [e], nS := s.nNow }
         | some (false, e) => { s with trX := s.trX ++ [e] }
-        | none => s
+        | none => if isAddTok t then { s with nNow := s.nNow + 1 } else s
       procToks s' t rest
 
 def specLine (s : Spec) (line : String) : Spec × String :=
@@ -260,7 +291,7 @@ def specLine (s : Spec) (line : String) : Spec × String :=
     if obs.startsWith "panic" || toks.contains "blocked" then (s, "VIOLATION C11/harness-crash-or-blocked " ++ op ++ " => " ++ obs)
     else match ws.head? with
     | some "reset" =>
-      ({ n := (kvNat ws "n").getD 0, isApp := (kvNat ws "app").getD 0 ≥ 1, kind := (kv ws "kind").getD "" }, "ok")
+      ({ n := (kvNat ws "n").getD 0, nNow := (kvNat ws "n").getD 0, nS := (kvNat ws "n").getD 0, nX := (kvNat ws "n").getD 0, isApp := (kvNat ws "app").getD 0 ≥ 1, kind := (kv ws "kind").getD "" }, "ok")
     | some h =>
       if h != "begin" && h != "fire" then (s, "ok")
       else
@@ -281,10 +312,10 @@ def specLine (s : Spec) (line : String) : Spec × String :=
         let s := if h == "begin" && effective then
             match phaseOf ws with
             | some true => { s with trS := [], begunS := true }
-            | some false => { s with trX := [], begunX := true }
+            | some false => { s with trX := [], begunX := true, nX := s.nNow }
             | none => s
           else s
-        let unknown := toks.any fun t => (parseTok t).isNone && !isPanicTok t && t != "-" && t != "noop" && t != "over" && t != "panic" && t != "RX" && t != "RS"
+        let unknown := toks.any fun t => (parseTok t).isNone && !isPanicTok t && t != "-" && t != "noop" && t != "over" && t != "panic" && t != "RX" && t != "RS" && t != "RG" && !isAddTok t
         let (s, cbViolation) := procToks s "" toks
         let nowBroken := s.broken || !disciplinedB s.trS || !disciplinedB s.trX
         let r := match guard, cbViolation with
